@@ -239,7 +239,8 @@ func c18(c *core.Ctx) {
 			found := false
 			for _, d := range dels {
 				da := d.Common().Args
-				if rs[1] != nil && core.Slice(da[len(da)-1])[rs[1]] {
+				// the WHOLE new-fork list: a filtered list would leave a tx that is on both forks in the pool
+				if rs[1] != nil && (da[len(da)-1] == rs[1] || core.Derived(rs[1])[da[len(da)-1]]) {
 					found = core.Dominates(adds[0], d)
 				}
 			}
@@ -248,7 +249,7 @@ func c18(c *core.Ctx) {
 			ga := gb[0].Common().Args
 			ok = ok && ga[len(ga)-2] == fn.Params[1] && ga[len(ga)-1] == fn.Params[2]
 		}
-		c.Check("onCurrentChanged:AddTxs(old fork)≺DelTxs(new fork)", "order", ok, fn.Pos(), "on a fork switch the abandoned fork's txs enter the pool before the winning fork's txs are removed")
+		c.Check("onCurrentChanged:AddTxs(old fork)≺DelTxs(new fork)", "order", ok, fn.Pos(), "on a fork switch the abandoned fork's txs enter the pool before ALL of the winning fork's txs (the unfiltered list) are removed")
 		// extend branch: DelTxs(newCurrent.Txs)
 		ok = false
 		for _, d := range dels {
